@@ -771,6 +771,11 @@ class Resolver:
                 return ("param", n)
         if depth > self.max_depth or n in seen:
             return ("local", n)
+        ci = counter_locals(fn).get(n)
+        if ci is not None:
+            rng = ("agg", ("adt", "std::ops::Range", "Range", ("start", "end")), (self.operand(ci[1], depth + 1, seen | {n}), self.operand(ci[2], depth + 1, seen | {n})))
+            ty = "std::ops::Range<%s>" % fn.locals[n].get("ty", "usize")
+            return ("ok", ("call", "std::iter::range::<impl std::iter::Iterator for std::ops::Range<A>>::next", (rng,), ci[0], (ty,)))
         ds = fn.defs().get(n, [])
         whole = [d for d in ds if not d[4]["proj"]]
         partial = [d for d in ds if d[4]["proj"]]
@@ -1026,6 +1031,110 @@ def uses_of_local(fn, n):
             p = op_place(t["cond"])
             if p is not None and p["local"] == n:
                 out.append((bi, "term", t))
+    return out
+
+
+def counter_locals(fn):
+    """locals that are plain loop counters: `let mut i = c0; while i < n { ..uses of i..; i += 1 }` with no use of i
+    after the increment or outside the loop and no assignment of n inside it.  Such a local takes exactly the values
+    the iteration variable of `for i in c0..n` takes, and the Resolver renders it that way (one spelling for both).
+    returns {local: (header, init operand, bound operand)}"""
+    if getattr(fn, "_counters", None) is not None:
+        return fn._counters
+    out = {}
+    fn._counters = out
+    try:
+        loops = natural_loops(fn)
+    except Exception:
+        return out
+    if not loops:
+        return out
+    g = fn.cfg()
+    for n in range(fn.argc + 1, len(fn.locals)):
+        ty = fn.locals[n].get("ty", "")
+        if ty not in ("usize", "u64", "u32", "u16", "u8", "i32", "i64", "isize"):
+            continue
+        ds = fn.defs().get(n, [])
+        if len(ds) != 2 or any(d[4]["proj"] for d in ds) or any(d[0] != "stmt" for d in ds):
+            continue
+        init = [d for d in ds if d[1]["k"] == "use" and d[1]["op"].get("k") == "const"]
+        inc = [d for d in ds if d not in init]
+        if len(init) != 1 or len(inc) != 1:
+            continue
+        p = inc[0][1]
+        if p["k"] != "use" or op_place(p["op"]) is None:
+            continue
+        sp = op_place(p["op"])
+        if not (len(sp["proj"]) == 1 and sp["proj"][0]["k"] == "field" and sp["proj"][0]["idx"] == 0):
+            continue
+        ads = fn.whole_defs(sp["local"])
+        if not (len(ads) == 1 and ads[0][0] == "stmt" and ads[0][1]["k"] == "binop" and ads[0][1]["op"] == "AddWithOverflow"):
+            continue
+        xa, xb = ads[0][1]["a"], ads[0][1]["b"]
+        if not (op_place(xa) is not None and not op_place(xa)["proj"] and op_place(xa)["local"] == n and const_int(xb) == 1):
+            continue
+        incb, addb = inc[0][2], ads[0][2]
+        cand = [(h, body) for h, body in loops.items() if incb in body and init[0][2] not in body]
+        if not cand:
+            continue
+        h, body = min(cand, key=lambda x: len(x[1]))
+        gi = {x: [y for y in ss if y in body] for x, ss in g.items() if x in body}
+        entry = [y for y in g.get(h, []) if y in body]
+        if find_path(gi, entry, {h}, {incb}) is not None:
+            continue
+        # the guard: a switch in the body on `n < bound` (copy of n) whose false edge leaves the loop, dominating the increment
+        guard = None
+        for b in body:
+            t = fn.blocks[b]["term"]
+            if t["k"] != "switch" or op_place(t["discr"]) is None or op_place(t["discr"])["proj"]:
+                continue
+            cds = fn.whole_defs(op_place(t["discr"])["local"])
+            if not (len(cds) == 1 and cds[0][0] == "stmt" and cds[0][1]["k"] == "binop" and cds[0][1]["op"] in ("Lt", "Gt")):
+                continue
+            a, c = cds[0][1]["a"], cds[0][1]["b"]
+            if cds[0][1]["op"] == "Gt":
+                a, c = c, a
+            ap = op_place(a)
+            if ap is None or ap["proj"] or ap["local"] != n:
+                # a copy of n
+                if ap is None or ap["proj"]:
+                    continue
+                cp = fn.whole_defs(ap["local"])
+                if not (len(cp) == 1 and cp[0][0] == "stmt" and cp[0][1]["k"] == "use" and op_place(cp[0][1]["op"]) is not None
+                        and not op_place(cp[0][1]["op"])["proj"] and op_place(cp[0][1]["op"])["local"] == n):
+                    continue
+            e = switch_edges(fn, b)
+            tr, fa = e.get("1", e["otherwise"]), e.get("0")
+            if fa is None or fa in body or tr not in body or not fn.dominates(b, incb):
+                continue
+            cpl = op_place(c)
+            for _ in range(3):
+                # look through temporaries copied from a loop-invariant local
+                if cpl is None or cpl["proj"]:
+                    break
+                cd = fn.defs().get(cpl["local"], [])
+                if len(cd) == 1 and cd[0][0] == "stmt" and not cd[0][4]["proj"] and cd[0][2] in body and cd[0][1]["k"] == "use":
+                    c = cd[0][1]["op"]
+                    cpl = op_place(c)
+                else:
+                    break
+            if cpl is not None and (cpl["proj"] or any(d[2] in body for d in fn.defs().get(cpl["local"], []))):
+                continue
+            guard = (b, c)
+        if guard is None:
+            continue
+        # every other exit of the loop is fine (break); uses: only inside the body, dominated by the guard, not after the increment
+        after = reach(gi, [s for s in gi.get(incb, []) if s != h], removed={h}) if gi.get(incb) else set()
+        ok = True
+        for bi, si, _ in uses_of_local(fn, n):
+            if bi == addb and si != "term" and fn.blocks[bi]["stmts"][si] is not None and fn.blocks[bi]["stmts"][si]["rv"] is ads[0][1]:
+                continue
+            if bi not in body or bi in after or not fn.dominates(guard[0], bi):
+                ok = False
+            if bi == incb and (si == "term" or si > inc[0][3]):
+                ok = False
+        if ok:
+            out[n] = (h, init[0][1]["op"], guard[1])
     return out
 
 
